@@ -177,3 +177,101 @@ Definition item_ok (docs codec : bool) (ir : type_ir) : Prop :=
 
 (** the one-token renaming used for "w does not occur" and for the root frame *)
 Definition rename_tok (a b : string) (t : string) : string := if String.eqb t a then b else t.
+
+(** ** the switches that replace one token LIST by another (alloc path, compact path, bits path) *)
+Definition set_alloc (a : alloc_path) (s : settings) : settings :=
+  mk_settings (s_root s) (s_docs s) (s_dreg s) (s_subs s) (s_bits s) (s_compact_as s) (s_compact s)
+              (s_codec s) a.
+Definition set_compact (c : option tokens) (s : settings) : settings :=
+  mk_settings (s_root s) (s_docs s) (s_dreg s) (s_subs s) (s_bits s) (s_compact_as s) c
+              (s_codec s) (s_alloc s).
+Definition set_bits (b : option tokens) (s : settings) : settings :=
+  mk_settings (s_root s) (s_docs s) (s_dreg s) (s_subs s) b (s_compact_as s) (s_compact s)
+              (s_codec s) (s_alloc s).
+
+(** the frame relation of such a switch: an alignment of two token lists in which equal
+    tokens align, the list [a1] aligns with the list [a2], and alignments concatenate *)
+Inductive frame_rel (a1 a2 : tokens) : tokens -> tokens -> Prop :=
+| fr_same l : frame_rel a1 a2 l l
+| fr_switch : frame_rel a1 a2 a1 a2
+| fr_app x1 x2 y1 y2 :
+    frame_rel a1 a2 x1 x2 -> frame_rel a1 a2 y1 y2 -> frame_rel a1 a2 (x1 ++ y1) (x2 ++ y2).
+
+(** all three switches at once *)
+Inductive frame_rel3 (a1 a2 c1 c2 b1 b2 : tokens) : tokens -> tokens -> Prop :=
+| fr3_same l : frame_rel3 a1 a2 c1 c2 b1 b2 l l
+| fr3_alloc : frame_rel3 a1 a2 c1 c2 b1 b2 a1 a2
+| fr3_compact : frame_rel3 a1 a2 c1 c2 b1 b2 c1 c2
+| fr3_bits : frame_rel3 a1 a2 c1 c2 b1 b2 b1 b2
+| fr3_app x1 x2 y1 y2 :
+    frame_rel3 a1 a2 c1 c2 b1 b2 x1 x2 -> frame_rel3 a1 a2 c1 c2 b1 b2 y1 y2 ->
+    frame_rel3 a1 a2 c1 c2 b1 b2 (x1 ++ y1) (x2 ++ y2).
+
+(** two outcomes are related: both [Ok] with related values, or the same error / panic *)
+Definition res_rel {A B} (R : A -> B -> Prop) (x : result A) (y : result B) : Prop :=
+  match x, y with
+  | Ok a, Ok b => R a b
+  | Err e1, Err e2 => e1 = e2
+  | Panic m1, Panic m2 => m1 = m2
+  | _, _ => False
+  end.
+
+Definition opt_rel {A B} (R : A -> B -> Prop) (x : option A) (y : option B) : Prop :=
+  match x, y with
+  | Some a, Some b => R a b
+  | None, None => True
+  | _, _ => False
+  end.
+
+(** a relation on token lists lifted through paths, IRs, item maps and settings: everything
+    equal except the token lists, which are related *)
+Section TokRel.
+  Variable R : tokens -> tokens -> Prop.
+
+  Inductive tpath_rel : tpath -> tpath -> Prop :=
+  | tr_param p : tpath_rel (TParam p) (TParam p)
+  | tr_path t1 t2 ps1 ps2 : R t1 t2 -> Forall2 tpath_rel ps1 ps2 -> tpath_rel (TPath t1 ps1) (TPath t2 ps2)
+  | tr_vec o1 o2 : tpath_rel o1 o2 -> tpath_rel (TVec o1) (TVec o2)
+  | tr_array len o1 o2 : tpath_rel o1 o2 -> tpath_rel (TArray len o1) (TArray len o2)
+  | tr_tuple es1 es2 : Forall2 tpath_rel es1 es2 -> tpath_rel (TTuple es1) (TTuple es2)
+  | tr_prim p : tpath_rel (TPrim p) (TPrim p)
+  | tr_compact i1 i2 f c1 c2 : tpath_rel i1 i2 -> R c1 c2 -> tpath_rel (TCompact i1 f c1) (TCompact i2 f c2)
+  | tr_bitvec o1 o2 st1 st2 b1 b2 :
+      tpath_rel o1 o2 -> tpath_rel st1 st2 -> R b1 b2 -> tpath_rel (TBitVec o1 st1 b1) (TBitVec o2 st2 b2).
+
+  Definition fi_rel (f1 f2 : field_ir) : Prop :=
+    tpath_rel (fi_path f1) (fi_path f2) /\ fi_compact f1 = fi_compact f2 /\ fi_boxed f1 = fi_boxed f2.
+
+  Inductive ckind_rel : ckind -> ckind -> Prop :=
+  | ck_none : ckind_rel CNoFields CNoFields
+  | ck_named fs1 fs2 :
+      Forall2 (fun x y : string * field_ir => fst x = fst y /\ fi_rel (snd x) (snd y)) fs1 fs2 ->
+      ckind_rel (CNamed fs1) (CNamed fs2)
+  | ck_unnamed fs1 fs2 : Forall2 fi_rel fs1 fs2 -> ckind_rel (CUnnamed fs1) (CUnnamed fs2).
+
+  Definition ci_rel (c1 c2 : composite_ir) : Prop :=
+    ci_name c1 = ci_name c2 /\ ckind_rel (ci_kind c1) (ci_kind c2) /\ ci_docs c1 = ci_docs c2.
+
+  Inductive kind_rel : kind_ir -> kind_ir -> Prop :=
+  | k_struct c1 c2 : ci_rel c1 c2 -> kind_rel (KStruct c1) (KStruct c2)
+  | k_enum n d vs1 vs2 :
+      Forall2 (fun x y : N * composite_ir => fst x = fst y /\ ci_rel (snd x) (snd y)) vs1 vs2 ->
+      kind_rel (KEnum n d vs1) (KEnum n d vs2).
+
+  Definition ir_rel (a b : type_ir) : Prop :=
+    ti_params a = ti_params b /\ ti_unused a = ti_unused b /\ ti_derives a = ti_derives b /\
+    ti_codec a = ti_codec b /\ kind_rel (ti_kind a) (ti_kind b).
+
+  Definition items_rel (m1 m2 : items) : Prop :=
+    Forall2 (fun e1 e2 : list string * (N * type_ir) =>
+               fst e1 = fst e2 /\ fst (snd e1) = fst (snd e2) /\ ir_rel (snd (snd e1)) (snd (snd e2)))
+            m1 m2.
+
+  (** the settings agree except for related alloc / compact / bits paths (an absent path is
+      absent on both sides) *)
+  Definition settings_rel (s1 s2 : settings) : Prop :=
+    s_root s1 = s_root s2 /\ s_docs s1 = s_docs s2 /\ s_dreg s1 = s_dreg s2 /\
+    s_subs s1 = s_subs s2 /\ s_compact_as s1 = s_compact_as s2 /\ s_codec s1 = s_codec s2 /\
+    R (alloc_tokens (s_alloc s1)) (alloc_tokens (s_alloc s2)) /\
+    opt_rel R (s_compact s1) (s_compact s2) /\ opt_rel R (s_bits s1) (s_bits s2).
+End TokRel.
